@@ -95,6 +95,11 @@ func (f *Future[T]) PipeTo(forwarders vivid.ActorRefs) error {
 	return nil
 }
 
+// Closed 返回 Future 是否已完成。
+func (f *Future[T]) Closed() bool {
+	return f.closed.Load()
+}
+
 // tellForwarders 向指定 refs 投递结果（*vivid.PipeResult），仅包含消息与错误，可跨网络序列化；liaison 为 nil 时跳过。
 func (f *Future[T]) tellForwarders(refs vivid.ActorRefs, msg T, err error) {
 	if f.liaison == nil {
